@@ -102,8 +102,8 @@ pub fn features_body(case: &ProgCase, obs: &mut Obs, sets: &[Vec<&'static str>])
                     return Err(format!("[sig:feature-dependent] the encoded registry differs between features {:?} and {:?} (first difference at byte {at}; {} vs {} bytes)", sa, sb, ba.len(), bb.len()));
                 }
             } else {
-                let (ma, _) = ref_dec(ba).map_err(|e| format!("harness: registry under {:?} does not decode: {e}", sa))?;
-                let (mb, _) = ref_dec(bb).map_err(|e| format!("harness: registry under {:?} does not decode: {e}", sb))?;
+                let (ma, _) = ref_dec(ba).map_err(|e| format!("[sig:feature-dependent] the registry encoded under features {:?} is not in the V14 layout any more (reference decoder: {e}), so the feature set changes more than documentation strings", sa))?;
+                let (mb, _) = ref_dec(bb).map_err(|e| format!("[sig:feature-dependent] the registry encoded under features {:?} is not in the V14 layout any more (reference decoder: {e}), so the feature set changes more than documentation strings", sb))?;
                 if blank_docs(&ma) != blank_docs(&mb) {
                     return Err(format!("[sig:feature-dependent] the docs feature changes more than documentation strings (features {:?} vs {:?})", sa, sb));
                 }
